@@ -77,8 +77,11 @@ var (
 	interpUses int
 )
 
+// getInterp: a fresh interpreter for every case. Re-using one made cases depend on each
+// other (seen once: after ~70 cases with trapped errors in one interpreter a breakpoint
+// was no longer delivered), which breaks shrinking and replay.
 func getInterp() *fast.Interp {
-	if interp == nil || interpUses >= 400 {
+	if interp == nil || interpUses >= 1 {
 		interp = fast.New()
 		interpUses = 0
 	}
@@ -437,7 +440,7 @@ func offsetOf(text string, line, col int) int {
 }
 
 func TestSourcePositions(t *testing.T) {
-	rec.Check(t, rec.Scale(700, 20000), func(t *rapid.T) {
+	rec.Check(t, rec.Scale(450, 8000), func(t *rapid.T) {
 		c, nt := genSrcCase(t)
 		if id := knownShape(c); id != "" {
 			rec.Excluded(id)
